@@ -32,6 +32,8 @@ BopOk(e) == /\ e.uab = SUnion(e.a, e.b) /\ e.uba = SUnion(e.b, e.a)
             /\ e.iab = SIntersects(e.a, e.b) /\ e.iba = e.iab
 RevOk(e) == e.r1 = RevSeq(e.ls) /\ e.r2 = e.ls
 OrientOk(e) == e.o = Orient(e.r) /\ e.orev = -e.o /\ e.ofar = e.o /\ e.ofarrev = -e.o   \* also far from the origin
+               /\ e.opal = 0          \* a ring that is its own reverse winds neither way
+               /\ e.olong = e.o       \* cutting the edges into many parts changes nothing
 Ok(e, NILOK) == CASE e.k = "clone" -> CloneOk(e, NILOK)
                   [] e.k = "equal" -> EqualOk(e)
                   [] e.k = "equal3" -> Equal3Ok(e)
